@@ -246,6 +246,23 @@ def setup_parse_response(u):
     return f, [], {}, {"self": cl, "code": code, "W": W, "pos0": pos0, "lines": lines, "n": n, "list_mode": list_mode}
 
 
+def code_info_locals(callee):
+    """resolver for loops of the shape `while ...: <code>, <info> = await self.<callee>(...)`"""
+
+    def resolve(fn):
+        import ast
+
+        loops = [n for n in ast.walk(fn) if isinstance(n, ast.While)]
+        if len(loops) != 1:
+            raise KeyError("expected one while loop")
+        inner = [n for n in ast.walk(loops[0]) if isinstance(n, ast.Assign) and isinstance(n.targets[0], ast.Tuple) and len(n.targets[0].elts) == 2 and all(isinstance(e, ast.Name) for e in n.targets[0].elts) and ("self." + callee + "(") in ast.unparse(n.value)]
+        if len(inner) != 1:
+            raise KeyError(f"expected one `<code>, <info> = await self.{callee}(...)` in the loop")
+        return {"code": inner[0].targets[0].elts[0].id, "info": inner[0].targets[0].elts[1].id}
+
+    return resolve
+
+
 def parse_response_locals(fn):
     """logical names of the loop contracts of parse_response -> the locals of the real function (read from its AST):
     `return <code>, <info>`;  `<curr_code>, <rest> = await self.parse_line()` inside the loop"""
@@ -480,6 +497,7 @@ def setup_command(u):
 
 
 c = contract(CLIENT, "BaseClient.command", props=["C06"], name="BaseClient.command#replies")
+c.alias_resolver = code_info_locals("parse_response")
 c.setup = setup_command
 c.uses = [(CLIENT, "Code.matches#summary"), (CLIENT, "BaseClient.parse_response#summary")]
 c.raises_("ConnectionResetError")
